@@ -85,7 +85,7 @@ def work(job):
     for c in CHECKS.get(pkg, CHECKS["."]):
         e = dict(ENV, VERIF_REPO=wt)
         try:
-            p = subprocess.run(["/verif/check", c], env=e, stdout=subprocess.PIPE, stderr=subprocess.STDOUT, text=True, timeout=1500)
+            p = subprocess.run([os.path.join(os.path.dirname(os.path.dirname(os.path.abspath(__file__))), "check"), c], env=e, stdout=subprocess.PIPE, stderr=subprocess.STDOUT, text=True, timeout=1500)
         except subprocess.TimeoutExpired:
             continue
         if p.returncode == 1:
